@@ -6,6 +6,9 @@ A  Props/C12.v over the MiniScope model (coq/Model/C12.v): a lexical resolver wi
      C12_uses_elsewhere, C12_defs_at_own_pos (for programs without the four declaration forms
      whose objects get a foreign position), C12_defs_pos_characterised (which Defs are wrong, all
      programs), C12_recorded_nodes_in_files, and *_refuted witnesses for the forms that violate.
+   K-gen: translator/gen_c12.go reads the cl call sites (position given to each declared object, what
+   defNames / compileAssignStmt / compileType / recordCompositeLit record) into Gen/C12.v;
+   C12_sites_as_modelled checks that they are what the model hard-wires.
 B  K-diff: extracted model vs typesutil.Checker on deterministic + seeded MiniScope programs
    rendered to Go/XGo text: per identifier occurrence Def/Use and the position of its object,
    len(Info.Scopes), presence of a nil key in Info.Types.
@@ -46,6 +49,14 @@ def split_items(field, sep):
 
 def run(ctx):
     ctx.level = "other"
+    if ctx.regen(["c12"]):
+        try:
+            unparsed = [s["site"] + ": " + s["arg"] for s in ctx.gen_json("c12") if s["rule"] == "RUnparsed"]
+        except Exception:
+            unparsed = ["c12.json unreadable"]
+        if unparsed:
+            ctx.log("static_gen: unparsed", unparsed)
+        ctx.notes["static_gen_unparsed"] = unparsed
     ctx.prove("C12")
     model = ctx.model("c12")
     impl = ctx.harness("c12")
